@@ -253,7 +253,7 @@ def run(case):
     from praatio.utilities import textgrid_io
     d = os.path.join(core.VERIF, ".work", "c03.%d" % os.getpid())
     os.makedirs(d, exist_ok=True)
-    fn = os.path.join(d, "in.TextGrid")
+    fn = core.fname(os.path.join(d, "in.TextGrid"))
     text = file_text(case)
 
     def f():
